@@ -77,7 +77,7 @@ func roundRef(S sInt, sticky bool, e int64, p int, mode RoundingMode, neg bool, 
 	lost := vOr(!sIsZero(rem), sticky)
 	gt := vOr(sLt(half, rem), vAnd(sEq(rem, half), sticky))
 	tie := vAnd(sEq(rem, half), !sticky)
-	odd := !sIsZero(sModPow10(sMul(q, sU(5)), 1)) // q odd <=> 5q mod 10 != 0
+	odd := sOdd(sModPow10(q, 1)) // parity of q = parity of its last digit
 	inc := vAnd(lost, specInc(mode, neg, gt, tie, odd))
 	M := sAdd(q, sIte(inc, sU(1), sU(0)))
 	carry := sEq(M, sPow10(p))
